@@ -2,12 +2,17 @@
    visibly.  Obligations proved here: the row invariants (for ANY arithmetic,
    hence also for the code's rust_decimal rounding), the all-affiliate sum and
    the correctness of the rows emitted before a rejection (exact arithmetic).
-   The "rejected iff impossible" equivalence and the visibility of the message
-   per output mode are decided by the correspondence/oracle part of the check
-   (see design.d/C04.md): they are NOT theorems yet. *)
+   "Rejected only when impossible" is a theorem too (C04_only_listed_rejections:
+   every rejection belongs to a listed class, each raised by its arm exactly on
+   its stated condition; C04_ahead_rejection_is_future_oversale: the
+   look-ahead rejection of a loss sale is raised exactly at a LATER sale that
+   sells more than its affiliate's share ledger holds at that point).  The
+   converse for whole histories ("impossible => rejected", which is how the
+   arms are written) and the visibility of the message per output mode are
+   decided by the decision oracle / the real binary in the check. *)
 From Coq Require Import List NArith ZArith QArith Qcanon Bool.
 From ACB Require Import Base.Outcome Base.QcExtra Base.Arith Model.Tx Model.Ledger Model.Sfl
-     Model.DeltaList Spec.AvgCost Proofs.C01Refine Proofs.C04Inv Proofs.C04Sum Proofs.C04Reject.
+     Model.DeltaList Spec.AvgCost Proofs.C01Refine Proofs.C04Inv Proofs.C04Sum Proofs.C04Reject Spec.SflRule Proofs.C02Scan Proofs.C04Ahead.
 Import ListNotations.
 
 (* No emitted row shows a negative share balance, all-affiliate balance or
@@ -68,6 +73,28 @@ Check C04_only_listed_rejections : forall (regof : N -> bool) init txs ds r,
   listed r.
 Print Assumptions C04_only_listed_rejections.
 
+(* What the look-ahead rejection means.  When the ledger, while looking ahead
+   through the 30-day window of a loss sale t, rejects the history because a
+   later sale of some affiliate cannot be covered (RejAheadAfNegative: "sale of
+   more shares than the affiliate holds" found ahead), then the rows after t
+   really contain such a sale: a row x = Sell n ... after some rows w1 such that
+   the share ledger of x's affiliate - its balance after t (t's own shares
+   removed if it is the seller), carried through w1 with purchases, sales and
+   splits applied (shares_after) - is below n.  Exact arithmetic, any rows
+   with positive split ratios. *)
+Theorem C04_ahead_rejection_is_future_oversale : forall bef t sold aft st,
+  Forall split_pos aft ->
+  sfl_info exact bef t sold aft st = Rej RejAheadAfNegative ->
+  exists w1 x w2 n p c r cr sp, aft = w1 ++ x :: w2 /\ t_act x = Sell n p c r cr sp /\
+    (shares_after (af_id (t_af x)) (shares_after_sale st t sold (t_af x)) w1 < n)%Qc.
+Proof. exact C04Ahead.ahead_af_rejection_is_future_oversale. Qed.
+Check C04_ahead_rejection_is_future_oversale : forall bef t sold aft st,
+  Forall split_pos aft ->
+  sfl_info exact bef t sold aft st = Rej RejAheadAfNegative ->
+  exists w1 x w2 n p c r cr sp, aft = w1 ++ x :: w2 /\ t_act x = Sell n p c r cr sp /\
+    (shares_after (af_id (t_af x)) (shares_after_sale st t sold (t_af x)) w1 < n)%Qc.
+Print Assumptions C04_ahead_rejection_is_future_oversale.
+
 (* Non-vacuity: an over-sale after two accepted rows is rejected with the
    two rows as prefix (exact and dec). *)
 Local Open Scope Z_scope.
@@ -85,3 +112,18 @@ Example C04_nonvacuous :
   snd (run dec None ex_over) = Some (SRej RejOversale) /\
   length (fst (run dec None ex_over)) = 2%nat.
 Proof. vm_compute. repeat split. Qed.
+
+(* non-vacuity of C04_ahead_rejection_is_future_oversale: a loss sale followed,
+   inside its window, by a purchase and then a sale of more than is held *)
+Definition spouse := {| af_id := 1003; af_reg := false; af_dflt := false |}.
+Definition ex_ahead : list tx := [
+  {| t_sec := 0; t_td := 90; t_sd := 90; t_act := Buy (q 20 1) (q 10 1) (q 0 1) (q 1 1) (q 1 1);
+     t_af := spouse; t_glob := false; t_ri := 0 |};
+  mk 100 (Buy (q 10 1) (q 10 1) (q 0 1) (q 1 1) (q 1 1));
+  mk 110 (Sell (q 4 1) (q 5 1) (q 0 1) (q 1 1) (q 1 1) None);
+  mk 115 (Buy (q 1 1) (q 5 1) (q 0 1) (q 1 1) (q 1 1));
+  mk 120 (Sell (q 8 1) (q 5 1) (q 0 1) (q 1 1) (q 1 1) None)].
+Example C04_ahead_nonvacuous :
+  snd (run exact None ex_ahead) = Some (SRej RejAheadAfNegative) /\
+  length (fst (run exact None ex_ahead)) = 2%nat.
+Proof. vm_compute. split; reflexivity. Qed.
